@@ -4,3 +4,10 @@ import Peppi.Props.C09
 #print axioms Peppi.Props.C09.C09_slpp_refuse
 #print axioms Peppi.Props.C09.C09_both
 #print axioms Peppi.Props.C09.C09_guard_passes
+#print axioms Peppi.Props.C09.Ver_le_total
+#print axioms Peppi.Props.C09.Ver_le_trans
+#print axioms Peppi.Props.C09.Ver_le_antisymm
+#print axioms Peppi.Props.C09.assertMaxVersion_le
+#print axioms Peppi.Props.C09.assertMaxVersion_down
+#print axioms Peppi.Props.C09.assertMaxVersion_up
+#print axioms Peppi.Props.C09.assertMaxVersion_boundary
